@@ -11,7 +11,7 @@ import Rooc.Sem
 import Rooc.Proofs.Field
 import Rooc.Proofs.Pre
 import Rooc.Proofs.Iter
-import Rooc.Proofs.Program
+import Rooc.Proofs.PreProgram
 import Mathlib.Algebra.BigOperators.Group.List.Basic
 namespace Rooc.Props.C06
 set_option linter.unusedSectionVars false
